@@ -176,7 +176,7 @@ func dischargeAll(obls []*Obligation, timeoutSec, seed int, wantModel bool) {
 	var wg sync.WaitGroup
 	sem := make(chan struct{}, 12)
 	for _, o := range obls {
-		if o.Trivial {
+		if o.Trivial || o.vc == nil {
 			continue
 		}
 		wg.Add(1)
